@@ -75,14 +75,14 @@ func init() {
 	})
 	addCheck(&CheckSpec{
 		Property: "C12", Level: "fault_enumeration", OwnsPanics: true,
-		Rule:        "crash scenario: a sequential workload (create, update, delete, Init with 0-3 seeds, re-Init, RebuildIndexes, Flush, dirty restart) on badgerstore + QueryStore over real BadgerDB with prefix empty, simple or dotted; a crash image (copy of the database directory taken while every goroutine of the bubble is durably blocked) is taken at occurrences of the instrumented points before/inside/after each mutation commit, inside Init, at the start and after the commit of each index task and after RebuildIndexes' drop (quick tier: a seeded sample of occurrences; thorough: every occurrence), plus a torn variant in which an unacknowledged suffix of the value log is zeroed; dirty restarts continue the run on an image.",
+		Rule:        "crash scenario: a sequential workload (create, update, delete, Init with 0-3 seeds (6-9 in the small-transaction configuration, where Init must fail as a whole with ErrTxnTooBig), re-Init, RebuildIndexes, Flush, dirty restart) on badgerstore + QueryStore over real BadgerDB with prefix empty, simple or dotted; a crash image (copy of the database directory taken while every goroutine of the bubble is durably blocked) is taken at occurrences of the instrumented points before/inside/after each mutation commit, inside Init, at the start and after the commit of each index task and after RebuildIndexes' drop (quick tier: a seeded sample of occurrences; thorough: every occurrence), plus a torn variant in which an unacknowledged suffix of the value log is zeroed; dirty restarts continue the run on an image.",
 		Oracle:      "each image is reopened with a fresh BadgerDB: every id holds the acked model's value, the id with a mutation in flight holds the old or the new value, an interrupted Init is all-or-none with a consistent marker; then the restart procedure (Init with the same seeds, RebuildIndexes) runs on the image: seeds appear exactly when the marker was absent and the id is missing, never again after a completed Init, and every generated index query agrees with the reference scan of the stored values.",
 		Scen:        []ScenBudget{{"crash", 600, 20000}},
 		Assumptions: []string{"BadgerDB is opened with its default SyncWrites=true; loss of acknowledged but unsynced data and disk errors below the transaction level (short or torn writes inside a commit) are not simulated (no VFS seam in BadgerDB v1.6.2); a disk that refuses a whole commit is (DB.Update of the scratch badger copy)", "a copy of the directory while all goroutines are blocked equals the image a process kill leaves; power loss is modelled by zeroing a suffix of the value log beyond the last acknowledged mutation"},
 	})
 	addCheck(&CheckSpec{
 		Property: "C15", Level: "exploration", OwnsPanics: true,
-		Rule:        "queryevent scenario: call handlers start 1-4 query events per run on resources in shared groups; the peer sends query requests (valid, missing query, malformed JSON) at tape-chosen instants relative to expiry: well inside the window, buffered in the subscription channel when the timer fires, after the drain was requested, more than the channel holds at once; callbacks reply with model/collection/events/errors, panic with each value kind or do nothing; the query subscription fails for some; expiry by advancing the simulated clock (50 ms, 1 s, 3 s durations).",
+		Rule:        "queryevent scenario: call handlers start 1-4 query events per run on resources in shared groups; the peer sends query requests (valid, missing query, malformed JSON) at tape-chosen instants relative to expiry: well inside the window, buffered in the subscription channel when the timer fires, after the drain was requested, more than the channel holds at once; callbacks reply with model/collection/events/errors, panic with each value kind or do nothing; the query subscription fails for some; expiry by advancing the simulated clock (50 ms, 1 s, 3 s durations). Tier B (real nats.go over the broker stub): query events overlapping and in sequence, and in four cases of ten one more that expires while the broker refuses the service (an outage), after which the client's own subscription table must be back at its size before the query events.",
 		Oracle:      "each query request delivered while the event was active gets exactly one response of the predicted kind (error for missing query or malformed payload); callbacks run under the C01 occupancy counter of the resource's group; after expiry the callback was invoked with nil exactly once, not before the configured duration, and no invocation with a request starts after it; a failed subscription yields exactly one nil call and no query event; after everything settled and the service was shut down no goroutine started by the go-res root package is left; core scenario (restarts): no two query events of a run, across Serve calls, are announced with the same subject.",
 		Scen:        []ScenBudget{{"queryevent", 12000, 250000}, {"core", 3000, 60000}, {"tierb", 300, 15000}},
 		Assumptions: []string{"tier A cannot observe Subscription.Drain on the zero-value subscription it hands out; the server-side effect of Drain is emulated at the instrumented point directly after the Drain call"},
